@@ -50,6 +50,9 @@ type Case struct {
 	// PreSibling: a request to the sibling operation of the same path item (PUT, which overrides exactly
 	// the path-level parameters POST does not) is validated first
 	PreSibling bool `json:"pre_sibling,omitempty"`
+	// NoSchemes: the document declares no security scheme at all (no securitySchemes map): every scheme a
+	// requirement names is undeclared, so no such requirement can be met
+	NoSchemes bool `json:"no_schemes,omitempty"`
 	// BodyStyle: "" (a strings.Reader: length known, GetBody set) | reader | chunked
 	BodyStyle string `json:"body_style,omitempty"`
 }
@@ -145,9 +148,16 @@ func build(c Case) (*openapi3.T, error) {
 		sib["parameters"] = sibParams
 	}
 	pi["put"] = sib
-	raw := kinx.Doc(M{"/r": pi}, M{"securitySchemes": M{
+	comps := M{"securitySchemes": M{
 		"s1": M{"type": "http", "scheme": "basic"}, "s2": M{"type": "apiKey", "name": "k", "in": "header"}, "s3": M{"type": "http", "scheme": "bearer"},
-	}})
+	}}
+	if c.NoSchemes {
+		comps = nil
+		if len(c.Params)%2 == 1 {
+			comps = M{"schemas": M{"Unrelated": M{"type": "string"}}} // components, but no securitySchemes
+		}
+	}
+	raw := kinx.Doc(M{"/r": pi}, comps)
 	if s := secJSON(c.DocSec); s != nil {
 		raw["security"] = s
 	}
@@ -294,7 +304,7 @@ func check(c Case) (o h.Outcome) {
 			all := true
 			for _, s := range r {
 				scheme, _ := splitEntry(s)
-				known := scheme == "s1" || scheme == "s2" || scheme == "s3"
+				known := !c.NoSchemes && (scheme == "s1" || scheme == "s2" || scheme == "s3")
 				if c.NoAuth || !known || !c.Auth[s] {
 					all = false
 				}
@@ -564,6 +574,7 @@ func gen(t *rapid.T) Case {
 		c.PreOpts = rapid.IntRange(1, 15).Draw(t, "preopts")
 	}
 	c.PreSibling = rapid.IntRange(0, 2).Draw(t, "presibling") == 0
+	c.NoSchemes = rapid.IntRange(0, 5).Draw(t, "noschemes") == 0
 	c.BodyStyle = rapid.SampledFrom([]string{"", "", "reader", "chunked"}).Draw(t, "bodystyle")
 	return c
 }
